@@ -340,24 +340,32 @@ Proof. destruct rest; simpl; auto. intros; lia. Qed.
 Lemma follow'_follow L rest : follow' L rest -> follow L rest.
 Proof. destruct rest as [|t r]; simpl; auto. destruct t; simpl; auto; lia. Qed.
 
+(* the tokens an expression can start with *)
+Definition starter (t : token) : bool :=
+  match t with
+  | TId _ | TInt _ | TDec _ _ _ | TDate _ _ _ | TStr _ _ | TPlaceS | TPlaceN _ | TLP | TPlus | TMinus
+  | TKw KNOT | TKw KTRUE | TKw KFALSE | TKw KSELECT => true
+  | _ => false
+  end.
 Definition nocomma (rest : list token) : Prop := match rest with TComma :: _ => False | _ => True end.
 Definition hdb (k : nat) (b : list token) : Prop :=
   match b with
   | [] => False
-  | t :: _ => (4 <= k -> t <> TKw KNOT) /\ (8 <= k -> t <> TPlus /\ t <> TMinus)
+  | t :: _ => (4 <= k -> t <> TKw KNOT) /\ (8 <= k -> t <> TPlus /\ t <> TMinus) /\ starter t = true
   end.
+Ltac hdb_tac := simpl; repeat (split || intro); try reflexivity; try congruence; try lia.
 Definition nolook (b : list token) : Prop := forall rest, nocomma rest -> look (b ++ rest) = false.
 
 Lemma hdb_mono k k' b : hdb k b -> k' <= k -> hdb k' b.
-Proof. destruct b; simpl; auto. intros [H1 H2] Hk. split; intros; [apply H1|apply H2]; lia. Qed.
+Proof. destruct b; simpl; auto. intros (H1 & H2 & H3) Hk. split; [|split]; intros; [apply H1; lia|apply H2; lia|exact H3]. Qed.
 Lemma hdb_pm b rest : hdb 8 b -> hd_not_pm (b ++ rest).
 Proof.
-  destruct b as [|t b]; simpl; [tauto|]. intros [_ H]. destruct (H (le_n 8)) as [H1 H2].
+  destruct b as [|t b]; simpl; [tauto|]. intros (_ & H & _). destruct (H (le_n 8)) as [H1 H2].
   destruct t; auto; congruence.
 Qed.
 Lemma hdb_NOT b rest : hdb 4 b -> hd_not_NOT (b ++ rest).
 Proof.
-  destruct b as [|t b]; simpl; [tauto|]. intros [H _]. specialize (H (le_n 4)).
+  destruct b as [|t b]; simpl; [tauto|]. intros (H & _). specialize (H (le_n 4)).
   destruct t; auto. destruct k; auto; congruence.
 Qed.
 
@@ -464,21 +472,24 @@ Proof.
 Qed.
 
 (* what is known of a sub-tree *)
+Definition closes (rest : list token) : Prop := match rest with [] => True | TRP :: _ => True | _ => False end.
+Definition SelOK (c : expr) : Prop :=
+  is_select c = true -> forall rest, closes rest -> Ok 1 p_select (body c ++ rest) (erase c, rest).
 Definition Good (c : expr) : Prop :=
-  Fall (body c) (erase c) (lvl c) /\ hdb (lvl c) (body c) /\ nolook (body c).
+  Fall (body c) (erase c) (lvl c) /\ hdb (lvl c) (body c) /\ nolook (body c) /\ SelOK c.
 
 (* the print of a child at a position that needs binding strength L <= 7 *)
-Lemma pp_Fall L x : 1 <= L <= 7 -> 1 <= lvl x -> Good x ->
+Lemma pp_Fall L x : 1 <= L <= 7 -> Good x ->
   Fall (pp L x) (erase x) L /\ hdb L (pp L x) /\ nolook (pp L x).
 Proof.
-  intros HL Hx (HF & Hh & Hn). unfold pp. destruct (lvl x <? L) eqn:E.
+  intros HL (HF & Hh & Hn & _). unfold pp. destruct (lvl x <? L) eqn:E.
   - assert (F : Fall (paren (body x)) (erase x) 7).
     { apply Fall_build; try lia.
-      - simpl. split; intros; [discriminate|split; discriminate].
+      - hdb_tac.
       - apply nolook_paren.
       - intros _ rest _. rewrite paren_app. apply HF. }
     split; [eapply Fall_mono; [exact F|lia]|]. split; [|apply nolook_paren].
-    simpl. split; intros; [discriminate|split; discriminate].
+    hdb_tac.
   - apply Nat.ltb_ge in E. split; [eapply Fall_mono; [exact HF|exact E]|].
     split; [eapply hdb_mono; [exact Hh|exact E]|exact Hn].
 Qed.
@@ -636,21 +647,7 @@ Proof.
 Qed.
 
 (* ---------------------------------------------------------------------- *)
-(* the main induction (expressions without sub-selects first) *)
-
-Fixpoint nosel (e : expr) : bool :=
-  match e with
-  | ESelect _ _ _ _ _ _ _ _ => false
-  | EConst _ | EList _ | EColumn _ | EFuncStar _ | EPlace _ => true
-  | EFunc _ args => forallb nosel args
-  | EAttr a _ | ESubscript a _ | ENeg a | EIsNull a | EIsNotNull a | ENot a | EParen a | EUPlus a => nosel a
-  | EArith _ a b | ECmp _ a b => nosel a && nosel b
-  | EBetween a b c => nosel a && nosel b && nosel c
-  | EAnd l | EOr l => forallb nosel l
-  end.
-
-Lemma nosel_lvl c : nosel c = true -> 1 <= lvl c.
-Proof. destruct c; simpl; try discriminate; try lia. destruct op; lia. Qed.
+(* small helpers for the main induction *)
 
 Lemma hdb_app k b r : hdb k b -> hdb k (b ++ r).
 Proof. destruct b; simpl; tauto. Qed.
@@ -703,15 +700,627 @@ Proof.
   destruct m; [lia|]. reflexivity.
 Qed.
 
-Lemma main : forall n c, esize c <= n -> wf c = true -> nosel c = true -> Good c.
+(* ====================================================================== *)
+(* SELECT and the other statements *)
+
+Definition target_toks (x : expr * option str) : list token :=
+  pp 1 (fst x) ++ match snd x with Some n => [TKw KAS; TId n] | None => [] end.
+Definition gcol_toks (c : N + expr) : list token :=
+  match c with inl n => [TInt n] | inr x => num_guard (pp 1 x) end.
+Definition ord_toks (x : (N + expr) * bool) : list token :=
+  gcol_toks (fst x) ++ (if snd x then [TKw KDESC] else []).
+Definition dist_toks (d : bool) : list token := if d then [TKw KDISTINCT] else [].
+Definition targets_toks (t : option (list (expr * option str))) : list token :=
+  match t with
+  | None => [TStar]
+  | Some [] => []
+  | Some (a :: r) => target_toks a ++ concat (map (fun x => TComma :: target_toks x) r)
+  end.
+Definition ffrom_toks (x : option expr) (op : option date) (c : option (option date)) (cl : bool) :=
+  match x with Some x => from_guard (pp 1 x) | None => [] end ++ open_toks op ++ close_toks c ++ clear_toks cl.
+Definition sfrom_toks (f : option (fromc expr)) : list token :=
+  match f with
+  | None => []
+  | Some (FTable n) => [TKw KFROM; TTable n]
+  | Some (FSub s) => TKw KFROM :: paren (body s)
+  | Some (FFrom x op c cl) => TKw KFROM :: ffrom_toks x op c cl
+  end.
+Definition where_toks (w : option expr) : list token :=
+  match w with Some x => TKw KWHERE :: pp 1 x | None => [] end.
+Definition group_toks (g : option (list (N + expr) * option expr)) : list token :=
+  match g with
+  | None => []
+  | Some ([], _) => []
+  | Some (a :: r, h) =>
+      TKw KGROUP :: TKw KBY :: gcol_toks a ++ concat (map (fun x => TComma :: gcol_toks x) r)
+      ++ match h with Some x => TKw KHAVING :: pp 1 x | None => [] end
+  end.
+Definition order_toks (o : list ((N + expr) * bool)) : list token :=
+  match o with
+  | [] => []
+  | a :: r => TKw KORDER :: TKw KBY :: ord_toks a ++ concat (map (fun x => TComma :: ord_toks x) r)
+  end.
+Definition pivot_toks (p : option ((N + str) * (N + str))) : list token :=
+  match p with
+  | Some (c1, c2) => [TKw KPIVOT; TKw KBY; pcol_tok c1; TComma; pcol_tok c2]
+  | None => []
+  end.
+Definition limit_toks (lim : option N) : list token :=
+  match lim with Some n => [TKw KLIMIT; TInt n] | None => [] end.
+
+Lemma body_select d t f w g o p lim :
+  body (ESelect d t f w g o p lim) =
+  TKw KSELECT :: dist_toks d ++ targets_toks t ++ sfrom_toks f ++ where_toks w ++ group_toks g
+  ++ order_toks o ++ pivot_toks p ++ limit_toks lim.
+Proof. reflexivity. Qed.
+
+(* what may follow a clause: 1 FROM 2 WHERE 3 GROUP 4 ORDER 5 PIVOT 6 LIMIT 7 end or `)` *)
+Definition crank (rest : list token) : nat :=
+  match rest with
+  | [] => 7
+  | TRP :: _ => 7
+  | TKw KFROM :: _ => 1
+  | TKw KWHERE :: _ => 2
+  | TKw KGROUP :: _ => 3
+  | TKw KORDER :: _ => 4
+  | TKw KPIVOT :: _ => 5
+  | TKw KLIMIT :: _ => 6
+  | _ => 0
+  end.
+Lemma crank_follow rest : 1 <= crank rest -> follow' 1 rest.
 Proof.
-  induction n as [|n IH]; intros c Hs Hwf Hns.
+  destruct rest as [|t r]; simpl; auto. destruct t; simpl; try lia. destruct k; simpl; lia.
+Qed.
+
+Definition G1 (x : expr) : Prop := Fall (pp 1 x) (erase x) 1 /\ hdb 1 (pp 1 x) /\ nolook (pp 1 x).
+Lemma Good_G1 x : Good x -> G1 x.
+Proof. apply pp_Fall. lia. Qed.
+
+Lemma Fall_paren b e : FP b e -> Fall (paren b) e 7.
+Proof.
+  intros HP. apply Fall_build; try lia; wrong_levels.
+  - hdb_tac.
+  - apply nolook_paren.
+  - intros _ rest _. rewrite paren_app. apply HP.
+Qed.
+
+Lemma guard_F1 b e g : g = b \/ g = paren b -> Fall b e 1 -> F1 g e.
+Proof.
+  intros [->| ->] HF; [apply (Fall_F1 _ _ _ HF); lia|].
+  apply (Fall_F1 _ _ _ (Fall_paren b e (Fall_FP _ _ _ HF))). lia.
+Qed.
+Lemma from_guard_cases ts : from_guard ts = ts \/ from_guard ts = paren ts.
+Proof.
+  destruct ts as [|t r]; [left; reflexivity|]. destruct t; try (left; reflexivity); simpl.
+  - destruct (str_eqb s w_open || str_eqb s w_close || str_eqb s w_clear); auto.
+  - destruct r as [|t2 r2]; auto. destruct t2; auto. destruct k; auto.
+Qed.
+Lemma num_guard_cases ts : num_guard ts = ts \/ num_guard ts = paren ts.
+Proof.
+  destruct ts as [|t r]; [left; reflexivity|]. destruct t; try (left; reflexivity); simpl; auto.
+  destruct lead; auto.
+Qed.
+
+Section Sel.
+Variable m : nat.
+Notation pe := (p_expression m).
+Notation ps := (p_select m).
+
+Lemma pe_ok b e rest : F1 b e -> follow' 1 rest -> 40 * length (b ++ rest) + 14 <= m ->
+  pe (b ++ rest) = Some (e, rest).
+Proof. intros H Hf Hm. apply H; assumption. Qed.
+
+Definition tfollow (rest : list token) : Prop := 1 <= crank rest \/ exists r, rest = TComma :: r.
+Lemma tfollow_follow rest : tfollow rest -> follow' 1 rest.
+Proof. intros [H|[r ->]]; [apply crank_follow, H|simpl; lia]. Qed.
+
+Definition et (x : expr * option str) := (erase (fst x), snd x).
+
+Lemma target_ok x rest : G1 (fst x) -> tfollow rest ->
+  40 * length (target_toks x ++ rest) + 14 <= m ->
+  p_target pe (target_toks x ++ rest) = Some (et x, rest).
+Proof.
+  destruct x as [x [n|]]; unfold target_toks, p_target, et; cbn [fst snd]; intros (HF & _) Hr Hm.
+  - rewrite <- app_assoc in *. rewrite (pe_ok (pp 1 x) (erase x)); [reflexivity| |simpl; lia|exact Hm].
+    apply (Fall_F1 _ _ _ HF). lia.
+  - rewrite app_nil_r in *. rewrite (pe_ok (pp 1 x) (erase x)); [| |apply tfollow_follow, Hr|exact Hm].
+    + destruct rest as [|t r]; [reflexivity|]. destruct t; try reflexivity. destruct k; try reflexivity.
+      exfalso. destruct Hr as [H|[r' H]]; [simpl in H; lia|discriminate].
+    + apply (Fall_F1 _ _ _ HF). lia.
+Qed.
+
+Lemma targets_tail : forall l k acc rest,
+  (forall x, List.In x l -> G1 (fst x)) -> 1 <= crank rest ->
+  length (concat (map (fun x => TComma :: target_toks x) l) ++ rest) < k ->
+  40 * length (concat (map (fun x => TComma :: target_toks x) l) ++ rest) + 14 <= m ->
+  targets_loop pe k acc (concat (map (fun x => TComma :: target_toks x) l) ++ rest)
+  = Some (rev acc ++ map et l, rest).
+Proof.
+  induction l as [|x l IH]; intros k acc rest HG Hr Hk Hm; (destruct k; [lia|]).
+  - cbn [map concat app targets_loop]. rewrite app_nil_r.
+    destruct rest as [|t r]; [reflexivity|]. destruct t; try reflexivity. simpl in Hr. lia.
+  - cbn [map concat app] in *. rewrite <- app_assoc in *. cbn [targets_loop].
+    rewrite target_ok; [|apply HG; left; reflexivity| |len].
+    + rewrite IH; [|intros; apply HG; right; assumption|exact Hr|len|len].
+      cbn [rev map]. rewrite <- app_assoc. reflexivity.
+    + destruct l; cbn [map concat app]; [left; exact Hr|right; eexists; reflexivity].
+Qed.
+
+Lemma targets_ok t rest k :
+  match t with Some [] => False | Some tl => forall x, List.In x tl -> G1 (fst x) | None => True end ->
+  1 <= crank rest -> length (targets_toks t ++ rest) < k ->
+  40 * length (targets_toks t ++ rest) + 14 <= m ->
+  p_targets pe k (targets_toks t ++ rest) = Some (omap (map et) t, rest).
+Proof.
+  intros HG Hr Hk Hm. unfold p_targets. destruct t as [[|a l]|]; [contradiction| |].
+  - cbn [targets_toks] in *. rewrite <- app_assoc in *.
+    rewrite target_ok; [|apply HG; left; reflexivity| |len].
+    + rewrite targets_tail; [reflexivity|intros; apply HG; right; assumption|exact Hr|len|len].
+    + destruct l; cbn [map concat app]; [left; exact Hr|right; eexists; reflexivity].
+  - cbn [targets_toks app]. unfold p_target. rewrite expr_dead by reflexivity. reflexivity.
+Qed.
+
+(* the qualifiers of a FROM clause *)
+Lemma clear_ok cl rest : 2 <= crank rest -> p_clear_opt (clear_toks cl ++ rest) = (cl, rest).
+Proof.
+  intros Hr. destruct cl; [reflexivity|]. cbn [clear_toks app].
+  destruct rest as [|t r]; [reflexivity|]. destruct t; try reflexivity. simpl in Hr. lia.
+Qed.
+Lemma close_ok c cl rest : 2 <= crank rest ->
+  p_close_opt (close_toks c ++ clear_toks cl ++ rest) = (c, clear_toks cl ++ rest).
+Proof.
+  intros Hr. destruct c as [[[[y mo] d]|]|].
+  - reflexivity.
+  - cbn [close_toks app]. unfold p_close_opt. rewrite str_eqb_refl.
+    destruct cl; cbn [clear_toks app];
+      (destruct rest as [|t r]; [reflexivity|]; destruct t; try reflexivity; simpl in Hr; lia).
+  - cbn [close_toks app]. destruct cl; [reflexivity|]. cbn [clear_toks app].
+    destruct rest as [|t r]; [reflexivity|]. destruct t; try reflexivity. simpl in Hr. lia.
+Qed.
+Lemma open_none ts : match ts with TId o :: _ => str_eqb o w_open = false | _ => True end ->
+  p_open_opt ts = (None, ts).
+Proof.
+  destruct ts as [|t r]; [reflexivity|]. destruct t; try reflexivity. intros H.
+  unfold p_open_opt. destruct r as [|t2 r]; [reflexivity|]. destruct t2; try reflexivity.
+  destruct r as [|t3 r]; [reflexivity|]. destruct t3; try reflexivity. rewrite H. reflexivity.
+Qed.
+Lemma open_ok o c cl rest : 2 <= crank rest ->
+  p_open_opt (open_toks o ++ close_toks c ++ clear_toks cl ++ rest) = (o, close_toks c ++ clear_toks cl ++ rest).
+Proof.
+  intros Hr. destruct o as [[[y mo] d]|]; [reflexivity|]. cbn [open_toks app].
+  apply open_none. destruct c as [[[[y mo] d]|]|]; [reflexivity|reflexivity|].
+  cbn [close_toks app]. destruct cl; [reflexivity|]. cbn [clear_toks app].
+  destruct rest as [|t r]; [exact I|]. destruct t; try exact I. simpl in Hr. lia.
+Qed.
+Lemma quals_follow o c cl rest : 2 <= crank rest ->
+  follow' 1 (open_toks o ++ close_toks c ++ clear_toks cl ++ rest).
+Proof.
+  intros Hr. destruct o as [[[y mo] d]|]; [simpl; lia|].
+  destruct c as [[[[y mo] d]|]|]; [simpl; lia|simpl; lia|].
+  destruct cl; [simpl; lia|]. apply crank_follow. simpl. lia.
+Qed.
+
+(* FROM *)
+Definition not_select_hd (r : list token) : Prop := match r with TKw KSELECT :: _ => False | _ => True end.
+Lemma from_guard_head b r : hdb 1 b -> not_select_hd r ->
+  from_kw (from_guard b ++ r) = 0 /\
+  match from_guard b ++ r with
+  | TTable _ :: _ => False
+  | TLP :: TKw KSELECT :: _ => False
+  | _ => True
+  end.
+Proof.
+  destruct b as [|t b']; [simpl; tauto|]. intros (_ & _ & Hs) Hr.
+  destruct t; try discriminate Hs; try (split; [reflexivity|exact I]).
+  - cbn [from_guard]. destruct (str_eqb s w_open) eqn:E1; [split; [reflexivity|exact I]|].
+    destruct (str_eqb s w_close) eqn:E2; [split; [reflexivity|exact I]|].
+    destruct (str_eqb s w_clear) eqn:E3; [split; [reflexivity|exact I]|].
+    cbn [orb app from_kw]. rewrite E1, E2, E3. split; [reflexivity|exact I].
+  - cbn [from_guard]. destruct b' as [|t2 b2].
+    + split; [reflexivity|]. cbn [app]. destruct r as [|t3 r3]; [exact I|].
+      destruct t3; try exact I. destruct k; try exact I. exact Hr.
+    + destruct t2; try (split; [reflexivity|exact I]). destruct k; split; try reflexivity; exact I.
+Qed.
+
+Lemma from_clause_fallthrough ts :
+  match ts with TTable _ :: _ => False | TLP :: TKw KSELECT :: _ => False | _ => True end ->
+  p_from_clause pe ps ts = p_from pe ts.
+Proof.
+  destruct ts as [|t r]; [reflexivity|]. destruct t; try reflexivity; [contradiction|].
+  destruct r as [|t2 r2]; [reflexivity|]. destruct t2; try reflexivity. destruct k; try reflexivity. contradiction.
+Qed.
+
+Definition ffrom_nonempty (x : option expr) (o : option date) (c : option (option date)) (cl : bool) : Prop :=
+  match x, o, c, cl with None, None, None, false => False | _, _, _, _ => True end.
+Definition G1o (x : option expr) : Prop := match x with Some x => G1 x | None => True end.
+
+Lemma quals_not_select o c cl rest : 2 <= crank rest ->
+  not_select_hd (open_toks o ++ close_toks c ++ clear_toks cl ++ rest).
+Proof.
+  intros Hr. destruct o as [[[y mo] d]|]; [exact I|].
+  destruct c as [[[[y mo] d]|]|]; [exact I|exact I|]. destruct cl; [exact I|].
+  cbn [open_toks close_toks clear_toks app]. destruct rest as [|t r]; [exact I|].
+  destruct t; try exact I. destruct k; try exact I. simpl in Hr. lia.
+Qed.
+
+Lemma ffrom_ok x o c cl rest : G1o x -> ffrom_nonempty x o c cl ->
+  2 <= crank rest -> 40 * length (ffrom_toks x o c cl ++ rest) + 14 <= m ->
+  p_from_clause pe ps (ffrom_toks x o c cl ++ rest) = Some (FFrom (omap erase x) o c cl, rest) /\
+  p_from pe (ffrom_toks x o c cl ++ rest) = Some (FFrom (omap erase x) o c cl, rest).
+Proof.
+  intros HG Hne Hr Hm. unfold ffrom_toks in *. rewrite <- !app_assoc in *.
+  destruct x as [x|].
+  - destruct HG as (HF & Hh & _).
+    destruct (from_guard_head (pp 1 x) (open_toks o ++ close_toks c ++ clear_toks cl ++ rest) Hh
+                (quals_not_select o c cl rest Hr)) as (Hk & Hhd).
+    rewrite from_clause_fallthrough by exact Hhd.
+    assert (E : p_from pe (from_guard (pp 1 x) ++ open_toks o ++ close_toks c ++ clear_toks cl ++ rest)
+                = Some (FFrom (Some (erase x)) o c cl, rest)).
+    { unfold p_from. rewrite Hk.
+      rewrite (pe_ok (from_guard (pp 1 x)) (erase x));
+        [|apply (guard_F1 (pp 1 x)); [apply from_guard_cases|exact HF]|apply quals_follow, Hr|exact Hm].
+      rewrite open_ok, close_ok, clear_ok by exact Hr. reflexivity. }
+    split; exact E.
+  - cbn [app omap] in *. destruct o as [[[y mo] d]|].
+    + cbn [open_toks app]. unfold p_from_clause, p_from. cbn [from_kw]. cbv iota.
+      change (str_eqb w_open w_open) with true. cbv iota. change (str_eqb w_on w_on) with true. cbv iota.
+      rewrite close_ok, clear_ok by exact Hr. split; reflexivity.
+    + destruct c as [c|].
+      * assert (K : from_kw (close_toks (Some c) ++ clear_toks cl ++ rest) = 2) by (destruct c as [[[y mo] d]|]; reflexivity).
+        assert (E : p_from pe (close_toks (Some c) ++ clear_toks cl ++ rest) = Some (FFrom None None (Some c) cl, rest)).
+        { unfold p_from. rewrite K. rewrite close_ok, clear_ok by exact Hr. reflexivity. }
+        split; [|exact E]. rewrite <- E. cbn [open_toks app]. destruct c as [[[y mo] d]|]; reflexivity.
+      * destruct cl; [|contradiction]. cbn [open_toks close_toks clear_toks app]. split; reflexivity.
+Qed.
+
+Definition SubOKm (s : expr) : Prop :=
+  is_select s = true /\
+  forall r', closes r' -> 40 * length (body s ++ r') + 1 <= m -> ps (body s ++ r') = Some (erase s, r').
+
+Lemma sfrom_ok f rest :
+  match f with
+  | Some (FSub s) => SubOKm s
+  | Some (FFrom x o c cl) => G1o x /\ ffrom_nonempty x o c cl
+  | _ => True
+  end ->
+  2 <= crank rest -> 40 * length (sfrom_toks f ++ rest) + 14 <= m ->
+  p_from_clause_opt pe ps (sfrom_toks f ++ rest) = Some (omap (from_map erase) f, rest).
+Proof.
+  intros HG Hr Hm. destruct f as [[n|s|x o c cl]|].
+  - reflexivity.
+  - destruct HG as (Hs & HS). cbn [sfrom_toks app omap from_map] in *. rewrite paren_app in *.
+    assert (Hhd : exists X, body s ++ TRP :: rest = TKw KSELECT :: X).
+    { destruct s; try discriminate Hs. rewrite body_select. eexists. reflexivity. }
+    destruct Hhd as [X EX].
+    assert (EP : ps (body s ++ TRP :: rest) = Some (erase s, TRP :: rest)) by (apply HS; [exact I|len]).
+    unfold p_from_clause_opt, p_from_clause. rewrite EX in *. cbv iota. rewrite EP. reflexivity.
+  - destruct HG as (HG & Hne). cbn [sfrom_toks app] in *. unfold p_from_clause_opt.
+    destruct (ffrom_ok x o c cl rest HG Hne Hr) as (E & _); [len|]. rewrite E. reflexivity.
+  - cbn [sfrom_toks app]. unfold p_from_clause_opt.
+    destruct rest as [|t r]; [reflexivity|]. destruct t; try reflexivity. destruct k; try reflexivity. simpl in Hr. lia.
+Qed.
+
+Lemma where_ok w rest : G1o w -> 3 <= crank rest -> 40 * length (where_toks w ++ rest) + 14 <= m ->
+  p_where_opt pe (where_toks w ++ rest) = Some (omap erase w, rest).
+Proof.
+  intros HG Hr Hm. destruct w as [x|]; cbn [where_toks app omap] in *; unfold p_where_opt.
+  - destruct HG as (HF & _). rewrite (pe_ok (pp 1 x) (erase x)); [reflexivity| | |len].
+    + apply (Fall_F1 _ _ _ HF). lia.
+    + apply crank_follow. lia.
+  - destruct rest as [|t r]; [reflexivity|]. destruct t; try reflexivity. destruct k; try reflexivity. simpl in Hr. lia.
+Qed.
+
+(* GROUP BY / ORDER BY columns *)
+Definition G1s (c : N + expr) : Prop := match c with inl _ => True | inr x => G1 x end.
+
+Lemma num_guard_head b r : hdb 1 b ->
+  match num_guard b ++ r with
+  | TInt _ :: _ | TDec true _ _ :: _ | TDate _ _ _ :: _ => False
+  | _ => True
+  end.
+Proof.
+  destruct b as [|t b']; [simpl; tauto|]. intros _. destruct t; try exact I. destruct lead; exact I.
+Qed.
+Lemma gcol_fallthrough ts :
+  match ts with TInt _ :: _ | TDec true _ _ :: _ | TDate _ _ _ :: _ => False | _ => True end ->
+  p_gcol pe ts = match pe ts with Some (e, r) => Some (inr e, r) | None => None end.
+Proof.
+  destruct ts as [|t r]; [reflexivity|]. destruct t; try reflexivity; try contradiction.
+  destruct lead; [contradiction|reflexivity].
+Qed.
+
+Lemma gcol_ok c rest : G1s c -> follow' 1 rest -> 40 * length (gcol_toks c ++ rest) + 14 <= m ->
+  p_gcol pe (gcol_toks c ++ rest) = Some (smap erase c, rest).
+Proof.
+  intros HG Hf Hm. destruct c as [n|x]; [reflexivity|]. cbn [gcol_toks smap] in *.
+  destruct HG as (HF & Hh & _).
+  rewrite gcol_fallthrough by (apply num_guard_head, Hh).
+  rewrite (pe_ok (num_guard (pp 1 x)) (erase x)); [reflexivity| |exact Hf|exact Hm].
+  apply (guard_F1 (pp 1 x)); [apply num_guard_cases|exact HF].
+Qed.
+
+Lemma gcols_tail : forall l k acc rest,
+  (forall c, List.In c l -> G1s c) -> follow' 1 rest -> nocomma rest ->
+  length (concat (map (fun x => TComma :: gcol_toks x) l) ++ rest) < k ->
+  40 * length (concat (map (fun x => TComma :: gcol_toks x) l) ++ rest) + 14 <= m ->
+  gcols_loop pe k acc (concat (map (fun x => TComma :: gcol_toks x) l) ++ rest)
+  = Some (rev acc ++ map (smap erase) l, rest).
+Proof.
+  induction l as [|x l IH]; intros k acc rest HG Hf Hc Hk Hm; (destruct k; [lia|]).
+  - cbn [map concat app gcols_loop]. rewrite app_nil_r.
+    destruct rest as [|t r]; [reflexivity|]. destruct t; try reflexivity. contradiction.
+  - cbn [map concat app] in *. rewrite <- app_assoc in *. cbn [gcols_loop].
+    rewrite gcol_ok; [|apply HG; left; reflexivity| |len].
+    + rewrite IH; [|intros; apply HG; right; assumption|exact Hf|exact Hc|len|len].
+      cbn [rev map]. rewrite <- app_assoc. reflexivity.
+    + destruct l; cbn [map concat app]; [exact Hf|simpl; lia].
+Qed.
+
+Definition having_toks (h : option expr) : list token :=
+  match h with Some x => TKw KHAVING :: pp 1 x | None => [] end.
+
+Lemma group_ok g rest k :
+  match g with
+  | Some ([], _) => False
+  | Some (gl, h) => (forall c, List.In c gl -> G1s c) /\ G1o h
+  | None => True
+  end ->
+  4 <= crank rest -> length (group_toks g ++ rest) < k -> 40 * length (group_toks g ++ rest) + 14 <= m ->
+  p_group_opt pe k (group_toks g ++ rest)
+  = Some (omap (fun x => (map (smap erase) (fst x), omap erase (snd x))) g, rest).
+Proof.
+  intros HG Hr Hk Hm. destruct g as [[[|a l] h]|]; [contradiction| |].
+  - destruct HG as (HG & Hh). cbn [group_toks] in *. fold (having_toks h) in *.
+    cbn [app] in *. rewrite <- !app_assoc in *. unfold p_group_opt.
+    assert (Hf : follow' 1 (having_toks h ++ rest) /\ nocomma (having_toks h ++ rest)).
+    { destruct h; [split; [simpl; lia|exact I]|]. cbn [having_toks app]. split; [apply crank_follow; lia|].
+      destruct rest as [|t r]; [exact I|]. destruct t; try exact I. simpl in Hr. lia. }
+    destruct Hf as (Hf & Hc).
+    rewrite gcol_ok; [|apply HG; left; reflexivity| |len].
+    + rewrite gcols_tail; [|intros; apply HG; right; assumption|exact Hf|exact Hc|len|len].
+      cbn [rev app omap fst snd map]. destruct h as [x|]; cbn [having_toks app omap] in *.
+      * destruct Hh as (HF & _). rewrite (pe_ok (pp 1 x) (erase x)); [reflexivity| | |len].
+        -- apply (Fall_F1 _ _ _ HF). lia.
+        -- apply crank_follow. lia.
+      * destruct rest as [|t r]; [reflexivity|]. destruct t; try reflexivity. destruct k0; try reflexivity.
+        simpl in Hr. lia.
+    + destruct l; cbn [map concat app]; [exact Hf|simpl; lia].
+  - cbn [group_toks app omap]. unfold p_group_opt.
+    destruct rest as [|t r]; [reflexivity|]. destruct t; try reflexivity. destruct k0; try reflexivity. simpl in Hr. lia.
+Qed.
+
+Definition ofollow (rest : list token) : Prop := 5 <= crank rest \/ exists r, rest = TComma :: r.
+Definition eo (x : (N + expr) * bool) := (smap erase (fst x), snd x).
+
+Lemma ord_ok x rest : G1s (fst x) -> ofollow rest -> 40 * length (ord_toks x ++ rest) + 14 <= m ->
+  p_order pe (ord_toks x ++ rest) = Some (eo x, rest).
+Proof.
+  destruct x as [c [|]]; unfold ord_toks, p_order, eo; cbn [fst snd]; intros HG Hr Hm.
+  - rewrite <- app_assoc in *. rewrite gcol_ok; [reflexivity|exact HG|simpl; lia|exact Hm].
+  - rewrite app_nil_r in *. rewrite gcol_ok; [|exact HG| |exact Hm].
+    + destruct rest as [|t r]; [reflexivity|]. destruct t; try reflexivity. destruct k; try reflexivity;
+        exfalso; destruct Hr as [H|[r' H]]; try (simpl in H; lia); discriminate.
+    + destruct Hr as [H|[r' ->]]; [apply crank_follow; lia|simpl; lia].
+Qed.
+
+Lemma orders_tail : forall l k acc rest,
+  (forall x, List.In x l -> G1s (fst x)) -> 5 <= crank rest ->
+  length (concat (map (fun x => TComma :: ord_toks x) l) ++ rest) < k ->
+  40 * length (concat (map (fun x => TComma :: ord_toks x) l) ++ rest) + 14 <= m ->
+  orders_loop pe k acc (concat (map (fun x => TComma :: ord_toks x) l) ++ rest)
+  = Some (rev acc ++ map eo l, rest).
+Proof.
+  induction l as [|x l IH]; intros k acc rest HG Hr Hk Hm; (destruct k; [lia|]).
+  - cbn [map concat app orders_loop]. rewrite app_nil_r.
+    destruct rest as [|t r]; [reflexivity|]. destruct t; try reflexivity. simpl in Hr. lia.
+  - cbn [map concat app] in *. rewrite <- app_assoc in *. cbn [orders_loop].
+    rewrite ord_ok; [|apply HG; left; reflexivity| |len].
+    + rewrite IH; [|intros; apply HG; right; assumption|exact Hr|len|len].
+      cbn [rev map]. rewrite <- app_assoc. reflexivity.
+    + destruct l; cbn [map concat app]; [left; exact Hr|right; eexists; reflexivity].
+Qed.
+
+Lemma order_ok o rest k : (forall x, List.In x o -> G1s (fst x)) ->
+  5 <= crank rest -> length (order_toks o ++ rest) < k -> 40 * length (order_toks o ++ rest) + 14 <= m ->
+  p_order_opt pe k (order_toks o ++ rest) = Some (map eo o, rest).
+Proof.
+  intros HG Hr Hk Hm. destruct o as [|a l]; unfold p_order_opt.
+  - cbn [order_toks app map]. destruct rest as [|t r]; [reflexivity|]. destruct t; try reflexivity.
+    destruct k0; try reflexivity. simpl in Hr. lia.
+  - cbn [order_toks app] in *. rewrite <- app_assoc in *.
+    rewrite ord_ok; [|apply HG; left; reflexivity| |len].
+    + rewrite orders_tail; [reflexivity|intros; apply HG; right; assumption|exact Hr|len|len].
+    + destruct l; cbn [map concat app]; [left; exact Hr|right; eexists; reflexivity].
+Qed.
+
+Lemma pcol_ok c r : p_pcol (pcol_tok c :: r) = Some (c, r).
+Proof. destruct c; reflexivity. Qed.
+
+Lemma pivot_ok p rest : 6 <= crank rest -> p_pivot_opt (pivot_toks p ++ rest) = Some (p, rest).
+Proof.
+  intros Hr. destruct p as [[c1 c2]|]; unfold p_pivot_opt.
+  - cbn [pivot_toks app]. rewrite pcol_ok, pcol_ok. reflexivity.
+  - cbn [pivot_toks app]. destruct rest as [|t r]; [reflexivity|]. destruct t; try reflexivity.
+    destruct k; try reflexivity. simpl in Hr. lia.
+Qed.
+
+Lemma limit_ok lim rest : 7 <= crank rest -> p_limit_opt (limit_toks lim ++ rest) = Some (lim, rest).
+Proof.
+  intros Hr. destruct lim as [n|]; unfold p_limit_opt; [reflexivity|].
+  cbn [limit_toks app]. destruct rest as [|t r]; [reflexivity|]. destruct t; try reflexivity.
+  destruct k; try reflexivity. simpl in Hr. lia.
+Qed.
+
+Lemma crank_limit lim rest : 7 <= crank rest -> 6 <= crank (limit_toks lim ++ rest).
+Proof. destruct lim; simpl; lia. Qed.
+Lemma crank_pivot p rest : 6 <= crank rest -> 5 <= crank (pivot_toks p ++ rest).
+Proof. destruct p as [[c1 c2]|]; simpl; lia. Qed.
+Lemma crank_order o rest : 5 <= crank rest -> 4 <= crank (order_toks o ++ rest).
+Proof. destruct o; simpl; lia. Qed.
+Lemma crank_group g rest : 4 <= crank rest -> 3 <= crank (group_toks g ++ rest).
+Proof. destruct g as [[[|a l] h]|]; simpl; lia. Qed.
+Lemma crank_where w rest : 3 <= crank rest -> 2 <= crank (where_toks w ++ rest).
+Proof. destruct w; simpl; lia. Qed.
+Lemma crank_sfrom f rest : 2 <= crank rest -> 1 <= crank (sfrom_toks f ++ rest).
+Proof. destruct f as [[n|s|x o c cl]|]; simpl; lia. Qed.
+Lemma closes_crank rest : closes rest -> 7 <= crank rest.
+Proof. destruct rest as [|t r]; simpl; [lia|]. destruct t; simpl; try contradiction; lia. Qed.
+
+Lemma dist_none ts : match ts with TKw KDISTINCT :: _ => False | _ => True end ->
+  match ts with TKw KDISTINCT :: r => (true, r) | _ => (false, ts) end = (false, ts).
+Proof. destruct ts as [|t r]; [reflexivity|]. destruct t; try reflexivity. destruct k; try reflexivity. contradiction. Qed.
+
+Lemma targets_hd t R :
+  match t with Some [] => False | Some tl => forall x, List.In x tl -> G1 (fst x) | None => True end ->
+  match targets_toks t ++ R with TKw KDISTINCT :: _ => False | _ => True end.
+Proof.
+  destruct t as [[|a l]|]; [contradiction| |exact (fun _ => I)].
+  intros H. destruct (H a (or_introl eq_refl)) as (_ & Hh & _).
+  cbn [targets_toks]. unfold target_toks. destruct (pp 1 (fst a)) as [|t0 b']; [contradiction|].
+  destruct Hh as (_ & _ & Hs). cbn [app]. destruct t0; try exact I. destruct k; try exact I. discriminate Hs.
+Qed.
+
+Definition sel_hyp (t : option (list (expr * option str))) (f : option (fromc expr)) (w : option expr)
+  (g : option (list (N + expr) * option expr)) (o : list ((N + expr) * bool)) : Prop :=
+  match t with Some [] => False | Some tl => forall x, List.In x tl -> G1 (fst x) | None => True end /\
+  match f with
+  | Some (FSub s) => SubOKm s
+  | Some (FFrom x o c cl) => G1o x /\ ffrom_nonempty x o c cl
+  | _ => True
+  end /\
+  G1o w /\
+  match g with
+  | Some ([], _) => False
+  | Some (gl, h) => (forall c, List.In c gl -> G1s c) /\ G1o h
+  | None => True
+  end /\
+  (forall x, List.In x o -> G1s (fst x)).
+
+Lemma select_ok d t f w g o p lim rest : sel_hyp t f w g o -> closes rest ->
+  40 * length (body (ESelect d t f w g o p lim) ++ rest) <= m ->
+  select_body pe ps m (body (ESelect d t f w g o p lim) ++ rest)
+  = Some (erase (ESelect d t f w g o p lim), rest).
+Proof.
+  intros (Ht & Hf & Hw & Hg & Ho) Hc Hm. rewrite body_select in *. cbn [app] in *.
+  rewrite <- !app_assoc in *.
+  pose proof (closes_crank rest Hc) as C7.
+  pose proof (crank_limit lim rest C7) as C6.
+  pose proof (crank_pivot p _ C6) as C5.
+  pose proof (crank_order o _ C5) as C4.
+  pose proof (crank_group g _ C4) as C3.
+  pose proof (crank_where w _ C3) as C2.
+  pose proof (crank_sfrom f _ C2) as C1.
+  unfold select_body.
+  assert (ED : match dist_toks d ++ targets_toks t ++ sfrom_toks f ++ where_toks w ++ group_toks g
+                     ++ order_toks o ++ pivot_toks p ++ limit_toks lim ++ rest with
+               | TKw KDISTINCT :: r => (true, r)
+               | _ => (false, dist_toks d ++ targets_toks t ++ sfrom_toks f ++ where_toks w ++ group_toks g
+                     ++ order_toks o ++ pivot_toks p ++ limit_toks lim ++ rest)
+               end = (d, targets_toks t ++ sfrom_toks f ++ where_toks w ++ group_toks g
+                     ++ order_toks o ++ pivot_toks p ++ limit_toks lim ++ rest)).
+  { destruct d; [reflexivity|]. cbn [dist_toks app]. apply dist_none, targets_hd, Ht. }
+  rewrite ED.
+  assert (L0 : length (dist_toks d) <= 1) by (destruct d; simpl; lia).
+  rewrite targets_ok; [|exact Ht|exact C1|len|len].
+  rewrite sfrom_ok; [|exact Hf|exact C2|len].
+  rewrite where_ok; [|exact Hw|exact C3|len].
+  rewrite group_ok; [|exact Hg|exact C4|len|len].
+  rewrite order_ok; [|exact Ho|exact C5|len|len].
+  rewrite pivot_ok by exact C6. rewrite limit_ok by exact C7. reflexivity.
+Qed.
+End Sel.
+
+(* a SELECT used as an expression: `( SELECT ... )` *)
+Lemma atom_to_paren ts e rest : Ok 2 p_atom ts (e, TRP :: rest) -> hd_not_pm ts -> hd_not_NOT ts ->
+  look ts = false -> length (TRP :: rest) <= length ts -> Ok 5 p_factor (TLP :: ts) (e, rest).
+Proof.
+  intros HA Hpm Hnot Hl Hlen.
+  assert (F8' : follow 8 (TRP :: rest)) by (simpl; lia).
+  assert (P : Ok 3 p_primary ts (e, TRP :: rest)).
+  { rewrite <- (primary_loop_stop e (TRP :: rest) F8'). apply L_A_P, HA. }
+  assert (F : Ok 5 p_factor ts (e, TRP :: rest)) by (apply L_P_F; assumption).
+  assert (T : Ok 7 p_term ts (e, TRP :: rest)).
+  { eapply L_F_T; [exact F|exact Hlen|apply term_loop_stop; simpl; lia]. }
+  assert (S' : Ok 9 p_sum ts (e, TRP :: rest)).
+  { eapply L_T_S; [exact T|exact Hlen|apply sum_loop_stop; simpl; lia]. }
+  assert (C : Ok 10 p_comparison ts (e, TRP :: rest)) by (apply L_S_C; [exact S'|simpl; lia]).
+  assert (I' : Ok 11 p_inversion ts (e, TRP :: rest)) by (apply L_C_I; assumption).
+  assert (J : Ok 12 p_conjunction ts (e, TRP :: rest)) by (apply L_I_J; [exact I'|exact Hlen|simpl; lia]).
+  assert (D : Ok 13 p_disjunction ts (e, TRP :: rest)) by (apply L_J_D; [exact J|exact Hlen|simpl; lia]).
+  apply L_E_Par; [apply L_D_E, D|exact Hl].
+Qed.
+
+Lemma main_select n d t f w g o p lim :
+  esize (ESelect d t f w g o p lim) <= S n -> wf (ESelect d t f w g o p lim) = true ->
+  (forall x, esize x <= n -> wf x = true -> Good x) -> Good (ESelect d t f w g o p lim).
+Proof.
+  intros Hs Hwf IH. cbn [wf esize] in Hs, Hwf.
+  apply andb_prop in Hwf. destruct Hwf as [Hwf He]. apply andb_prop in Hwf. destruct Hwf as [Hwf Hd].
+  apply andb_prop in Hwf. destruct Hwf as [Hwf Hc]. apply andb_prop in Hwf. destruct Hwf as [Ha Hb].
+  assert (HT : match t with Some [] => False | Some tl => forall x, List.In x tl -> G1 (fst x) | None => True end).
+  { destruct t as [[|a l]|]; [discriminate Ha| |exact I]. intros x Hx. apply Good_G1, IH.
+    - pose proof (In_lsize (fun p : expr * option str => esize (fst p)) x (a :: l) Hx) as H.
+      cbn [osize] in Hs. cbv beta in H. lia.
+    - rewrite forallb_forall in Ha. apply (Ha x Hx). }
+  assert (HW : G1o w).
+  { destruct w as [x|]; [|exact I]. apply Good_G1, IH; [cbn [osize] in Hs; lia|exact Hc]. }
+  assert (HF : forall m, match f with
+                         | Some (FSub s) => SubOKm m s
+                         | Some (FFrom x o c cl) => G1o x /\ ffrom_nonempty x o c cl
+                         | _ => True
+                         end).
+  { intros m. destruct f as [[nm|s|x op c cl]|]; try exact I; cbn [oall wf_from] in Hb.
+    - apply andb_prop in Hb. destruct Hb as [Hsel Hws].
+      assert (Gs : Good s) by (apply IH; [cbn [osize from_size] in Hs; lia|exact Hws]).
+      destruct Gs as (_ & _ & _ & HS). split; [exact Hsel|]. intros r' Hc' Hm'. apply (HS Hsel r' Hc'). lia.
+    - apply andb_prop in Hb. destruct Hb as [Hwx Hne]. split.
+      + destruct x as [x|]; [|exact I]. apply Good_G1, IH; [cbn [osize from_size] in Hs; lia|exact Hwx].
+      + destruct x, op, c, cl; try exact I. discriminate Hne. }
+  assert (HG : match g with
+               | Some ([], _) => False
+               | Some (gl, h) => (forall c, List.In c gl -> G1s c) /\ G1o h
+               | None => True
+               end).
+  { destruct g as [[[|a l] h]|]; [discriminate Hd| |exact I].
+    apply andb_prop in Hd. destruct Hd as [Hgl Hh]. cbn [osize fst snd] in Hs. split.
+    - intros c Hc'. destruct c as [k|x]; [exact I|]. apply Good_G1, IH.
+      + pose proof (In_lsize (ssize esize) (inr x) (a :: l) Hc') as H. cbn [ssize] in H. lia.
+      + rewrite forallb_forall in Hgl. apply (Hgl (inr x) Hc').
+    - destruct h as [x|]; [|exact I]. apply Good_G1, IH; [cbn [osize] in Hs; lia|exact Hh]. }
+  assert (HO : forall x, List.In x o -> G1s (fst x)).
+  { intros x Hx. destruct x as [[k|x] dsc]; [exact I|]. cbn [fst]. apply Good_G1, IH.
+    - pose proof (In_lsize (fun p : (N + expr) * bool => ssize esize (fst p)) (inr x, dsc) o Hx) as H.
+      cbn [ssize fst] in H. lia.
+    - rewrite forallb_forall in He. apply (He (inr x, dsc) Hx). }
+  assert (HS : SelOK (ESelect d t f w g o p lim)).
+  { intros _ rest Hcl. ok_start. rewrite p_select_S. apply select_ok; [|exact Hcl|len].
+    repeat split; try assumption. apply HF. }
+  assert (Hh : hdb 0 (body (ESelect d t f w g o p lim))) by (rewrite body_select; hdb_tac).
+  assert (Hn : nolook (body (ESelect d t f w g o p lim))).
+  { intros rest _. rewrite body_select. cbn [app]. match goal with |- look (_ :: ?X) = _ => destruct X as [|t2 r2] end;
+      [reflexivity|]. destruct t2; reflexivity. }
+  split; [|split; [exact Hh|split; [exact Hn|exact HS]]].
+  cbn [lvl]. repeat split; try (intros; lia).
+  intros rest. apply atom_to_paren.
+  - ok_start. rewrite p_atom_S. rewrite body_select in *. cbn [app] in *. cbv iota.
+    rewrite <- body_select in *.
+    change (TKw KSELECT :: _ ++ TRP :: rest) with (body (ESelect d t f w g o p lim) ++ TRP :: rest).
+    apply (HS eq_refl (TRP :: rest) I). rewrite body_select. cbn [app]. len.
+  - rewrite body_select. exact I.
+  - rewrite body_select. exact I.
+  - apply Hn. exact I.
+  - len.
+Qed.
+
+Lemma main : forall n c, esize c <= n -> wf c = true -> Good c.
+Proof.
+  induction n as [|n IH]; intros c Hs Hwf.
   { destruct c; simpl in Hs; lia. }
-  destruct c; cbn [wf nosel esize] in Hs, Hwf, Hns; try discriminate Hns.
+  destruct c; cbn [wf esize] in Hs, Hwf.
   - (* EConst *)
     assert (Hh : hdb 9 [lit_tok l]).
-    { simpl. split; intros; [|split]; destruct l as [| [] | | | |]; discriminate. }
-    split; [|split; [exact Hh|apply nolook_single]].
+    { destruct l as [| [] | | | |]; hdb_tac. }
+    split; [|split; [exact Hh|split; [apply nolook_single|intros Hsel; discriminate Hsel]]].
     apply Fall_build; [cbn [lvl]; lia|exact Hh|apply nolook_single|..]; cbn [lvl]; wrong_levels; intros _.
     intros rest Hf. ok_start. cbn [body app]. rewrite p_atom_S.
     destruct l as [| [] | | | |]; try reflexivity.
@@ -720,11 +1329,11 @@ Proof.
     destruct t; simpl in Hf; try lia; reflexivity.
   - (* EList *)
     assert (Hne : ls <> []) by (destruct ls; [discriminate|discriminate]).
-    assert (Hh : hdb 9 (body (EList ls))) by (simpl; split; intros; [|split]; discriminate).
+    assert (Hh : hdb 9 (body (EList ls))) by hdb_tac.
     assert (Hn : nolook (body (EList ls))).
     { intros rest _. cbn [body app]. destruct ls as [|l [|l2 ls]]; [congruence| |];
         simpl; destruct l as [| [] | | | |]; reflexivity. }
-    split; [|split; assumption].
+    split; [|split; [assumption|split; [assumption|intros Hsel; discriminate Hsel]]].
     apply Fall_build; [cbn [lvl]; lia|exact Hh|exact Hn|..]; cbn [lvl]; wrong_levels; intros _.
     intros rest Hf. ok_start. cbn [body erase]. rewrite p_atom_S.
     change ((TLP :: lits_toks ls ++ [TRP]) ++ rest) with (TLP :: (lits_toks ls ++ [TRP]) ++ rest).
@@ -737,91 +1346,88 @@ Proof.
         with (lit_tok l :: TComma :: (lits_tail (l2 :: ls) ++ TRP :: rest)) in *.
       cbv iota. rewrite lit_of_lit_tok, PL. reflexivity.
   - (* EColumn *)
-    assert (Hh : hdb 9 [TId name]) by (simpl; split; intros; [|split]; discriminate).
-    split; [|split; [exact Hh|apply nolook_single]].
+    assert (Hh : hdb 9 [TId name]) by hdb_tac.
+    split; [|split; [exact Hh|split; [apply nolook_single|intros Hsel; discriminate Hsel]]].
     apply Fall_build; [cbn [lvl]; lia|exact Hh|apply nolook_single|..]; cbn [lvl]; wrong_levels; intros _.
     intros rest Hf. ok_start. cbn [body app erase]. rewrite p_atom_S.
     apply negb_true_iff in Hwf. rewrite Hwf.
     destruct rest as [|t r]; [reflexivity|].
     destruct t; simpl in Hf; try lia; reflexivity.
   - (* EFunc *)
-    assert (Hh : hdb 9 (body (EFunc name args))) by (simpl; split; intros; [|split]; discriminate).
+    assert (Hh : hdb 9 (body (EFunc name args))) by hdb_tac.
     assert (Hn : nolook (body (EFunc name args))) by (intros rest _; reflexivity).
-    split; [|split; assumption].
+    split; [|split; [assumption|split; [assumption|intros Hsel; discriminate Hsel]]].
     apply Fall_build; [cbn [lvl]; lia|exact Hh|exact Hn|..]; cbn [lvl]; wrong_levels; intros _.
     assert (HF : forall x, List.In x args -> F1 (pp 1 x) (erase x)).
     { intros x Hx. assert (Gx : Good x).
-      { apply IH; [pose proof (In_lsize esize x args Hx); lia| |].
-        - rewrite forallb_forall in Hwf. apply Hwf, Hx.
-        - rewrite forallb_forall in Hns. apply Hns, Hx. }
-      assert (Lx : 1 <= lvl x) by (apply nosel_lvl; rewrite forallb_forall in Hns; apply Hns, Hx).
-      destruct (pp_Fall 1 x ltac:(lia) Lx Gx) as (Fx & _ & _). apply (Fall_F1 _ _ _ Fx). lia. }
+      { apply IH; [pose proof (In_lsize esize x args Hx); lia|]. rewrite forallb_forall in Hwf. apply Hwf, Hx. }
+      destruct (pp_Fall 1 x ltac:(lia) Gx) as (Fx & _ & _). apply (Fall_F1 _ _ _ Fx). lia. }
     intros rest Hf. ok_start.
     change (body (EFunc name args)) with (TId name :: TLP :: args_toks args ++ [TRP]) in *.
     cbn [app erase] in *. rewrite <- app_assoc in *. cbn [app] in *. rewrite p_atom_S. cbv iota zeta.
     rewrite (args_ok args rest HF) by len. reflexivity.
   - (* EFuncStar *)
-    assert (Hh : hdb 9 (body (EFuncStar name))) by (simpl; split; intros; [|split]; discriminate).
+    assert (Hh : hdb 9 (body (EFuncStar name))) by hdb_tac.
     assert (Hn : nolook (body (EFuncStar name))) by (intros rest _; reflexivity).
-    split; [|split; assumption].
+    split; [|split; [assumption|split; [assumption|intros Hsel; discriminate Hsel]]].
     apply Fall_build; [cbn [lvl]; lia|exact Hh|exact Hn|..]; cbn [lvl]; wrong_levels; intros _.
     intros rest Hf. ok_start. cbn [body app erase] in *. rewrite p_atom_S. cbv iota zeta.
     rewrite args_star by len. reflexivity.
   - (* EPlace *)
-    assert (Hh : hdb 9 (body (EPlace name))) by (destruct name; simpl; split; intros; [|split| |split]; discriminate).
+    assert (Hh : hdb 9 (body (EPlace name))) by (destruct name; hdb_tac).
     assert (Hn : nolook (body (EPlace name))) by (destruct name; apply nolook_single).
-    split; [|split; assumption].
+    split; [|split; [assumption|split; [assumption|intros Hsel; discriminate Hsel]]].
     apply Fall_build; [cbn [lvl]; lia|exact Hh|exact Hn|..]; cbn [lvl]; wrong_levels; intros _.
     intros rest Hf. ok_start. rewrite p_atom_S. destruct name; reflexivity.
   - (* EAttr *)
     apply andb_prop in Hwf. destruct Hwf as [Hl Hwf]. apply Nat.leb_le in Hl.
-    assert (Ga : Good c) by (apply IH; [lia|assumption|assumption]).
-    destruct Ga as (Fa & Hha & Hna).
+    assert (Ga : Good c) by (apply IH; [lia|assumption]).
+    destruct Ga as (Fa & Hha & Hna & _).
     unfold Good. change (body (EAttr c name)) with (body c ++ [TDot; TId name]).
     assert (Hh : hdb 8 (body c ++ [TDot; TId name])) by (apply hdb_app; eapply hdb_mono; [exact Hha|exact Hl]).
     assert (Hn : nolook (body c ++ [TDot; TId name])) by (apply nolook_app; [exact Hna|intros; exact I]).
-    split; [|split; assumption].
+    split; [|split; [assumption|split; [assumption|intros Hsel; discriminate Hsel]]].
     apply Fall_build; [cbn [lvl]; lia|exact Hh|exact Hn|..]; cbn [lvl]; wrong_levels; intros _.
     intros rest Hf. rewrite <- app_assoc. cbn [app erase].
     change (primary_loop (EAttr (erase c) name) rest) with (primary_loop (erase c) (TDot :: TId name :: rest)).
     apply (Fall_F8 _ _ _ Fa Hl). simpl. lia.
   - (* ESubscript *)
     apply andb_prop in Hwf. destruct Hwf as [Hl Hwf]. apply Nat.leb_le in Hl.
-    assert (Ga : Good c) by (apply IH; [lia|assumption|assumption]).
-    destruct Ga as (Fa & Hha & Hna).
+    assert (Ga : Good c) by (apply IH; [lia|assumption]).
+    destruct Ga as (Fa & Hha & Hna & _).
     unfold Good. change (body (ESubscript c key)) with (body c ++ [TLB; str_tok key; TRB]).
     assert (Hh : hdb 8 (body c ++ [TLB; str_tok key; TRB])) by (apply hdb_app; eapply hdb_mono; [exact Hha|exact Hl]).
     assert (Hn : nolook (body c ++ [TLB; str_tok key; TRB])) by (apply nolook_app; [exact Hna|intros; exact I]).
-    split; [|split; assumption].
+    split; [|split; [assumption|split; [assumption|intros Hsel; discriminate Hsel]]].
     apply Fall_build; [cbn [lvl]; lia|exact Hh|exact Hn|..]; cbn [lvl]; wrong_levels; intros _.
     intros rest Hf. rewrite <- app_assoc. cbn [app erase].
     change (primary_loop (ESubscript (erase c) key) rest) with (primary_loop (erase c) (TLB :: str_tok key :: TRB :: rest)).
     apply (Fall_F8 _ _ _ Fa Hl). simpl. lia.
   - (* ENeg *)
-    assert (Ga : Good c) by (apply IH; [lia|assumption|assumption]).
-    destruct (pp_Fall 7 c ltac:(lia) (nosel_lvl c Hns) Ga) as (Fa & _ & _).
+    assert (Ga : Good c) by (apply IH; [lia|assumption]).
+    destruct (pp_Fall 7 c ltac:(lia) Ga) as (Fa & _ & _).
     unfold Good. change (body (ENeg c)) with (TMinus :: pp 7 c).
-    assert (Hh : hdb 7 (TMinus :: pp 7 c)) by (simpl; split; intros; [discriminate|lia]).
+    assert (Hh : hdb 7 (TMinus :: pp 7 c)) by hdb_tac.
     assert (Hn : nolook (TMinus :: pp 7 c)).
     { intros rest _. cbn [app]. destruct (pp 7 c ++ rest) as [|t r]; [reflexivity|]. destruct t; reflexivity. }
-    split; [|split; assumption].
+    split; [|split; [assumption|split; [assumption|intros Hsel; discriminate Hsel]]].
     apply Fall_build; [cbn [lvl]; lia|exact Hh|exact Hn|..]; cbn [lvl]; wrong_levels; intros _.
     intros rest Hf. ok_start. cbn [app erase] in *. rewrite p_factor_S.
     destruct m; [exfalso; len|]. rewrite p_unary_S. cbv iota.
     rewrite (Fall_F7 _ _ _ Fa (le_n 7) rest Hf) by len. reflexivity.
   - (* EArith *)
-    apply andb_prop in Hwf. destruct Hwf as [Hw1 Hw2]. apply andb_prop in Hns. destruct Hns as [Hn1 Hn2].
-    assert (G1 : Good c1) by (apply IH; [lia|assumption|assumption]).
-    assert (G2 : Good c2) by (apply IH; [lia|assumption|assumption]).
-    destruct (pp_Fall 5 c1 ltac:(lia) (nosel_lvl c1 Hn1) G1) as (Fa & Hha & Hna).
-    destruct (pp_Fall 6 c2 ltac:(lia) (nosel_lvl c2 Hn2) G2) as (Fb & _ & _).
-    destruct (pp_Fall 6 c1 ltac:(lia) (nosel_lvl c1 Hn1) G1) as (Fa' & Hha' & Hna').
-    destruct (pp_Fall 7 c2 ltac:(lia) (nosel_lvl c2 Hn2) G2) as (Fb' & _ & _).
+    apply andb_prop in Hwf. destruct Hwf as [Hw1 Hw2].
+    assert (G1 : Good c1) by (apply IH; [lia|assumption]).
+    assert (G2 : Good c2) by (apply IH; [lia|assumption]).
+    destruct (pp_Fall 5 c1 ltac:(lia) G1) as (Fa & Hha & Hna).
+    destruct (pp_Fall 6 c2 ltac:(lia) G2) as (Fb & _ & _).
+    destruct (pp_Fall 6 c1 ltac:(lia) G1) as (Fa' & Hha' & Hna').
+    destruct (pp_Fall 7 c2 ltac:(lia) G2) as (Fb' & _ & _).
     destruct op.
       { unfold Good. change (body (EArith Add c1 c2)) with (pp 5 c1 ++ TPlus :: pp 6 c2).
         assert (Hh : hdb 5 (pp 5 c1 ++ TPlus :: pp 6 c2)) by (apply hdb_app; exact Hha).
         assert (Hn : nolook (pp 5 c1 ++ TPlus :: pp 6 c2)) by (apply nolook_app; [exact Hna|intros; exact I]).
-        split; [|split; assumption].
+        split; [|split; [assumption|split; [assumption|intros Hsel; discriminate Hsel]]].
         apply Fall_build; [cbn [lvl]; lia|exact Hh|exact Hn|..]; cbn [lvl]; wrong_levels; intros _.
         intros rest r Hf Hl. rewrite <- app_assoc. cbn [app erase].
         apply (Fall_F5 _ _ _ Fa (le_n 5)); [simpl; lia|].
@@ -832,7 +1438,7 @@ Proof.
       { unfold Good. change (body (EArith Sub c1 c2)) with (pp 5 c1 ++ TMinus :: pp 6 c2).
         assert (Hh : hdb 5 (pp 5 c1 ++ TMinus :: pp 6 c2)) by (apply hdb_app; exact Hha).
         assert (Hn : nolook (pp 5 c1 ++ TMinus :: pp 6 c2)) by (apply nolook_app; [exact Hna|intros; exact I]).
-        split; [|split; assumption].
+        split; [|split; [assumption|split; [assumption|intros Hsel; discriminate Hsel]]].
         apply Fall_build; [cbn [lvl]; lia|exact Hh|exact Hn|..]; cbn [lvl]; wrong_levels; intros _.
         intros rest r Hf Hl. rewrite <- app_assoc. cbn [app erase].
         apply (Fall_F5 _ _ _ Fa (le_n 5)); [simpl; lia|].
@@ -843,7 +1449,7 @@ Proof.
       { unfold Good. change (body (EArith Mul c1 c2)) with (pp 6 c1 ++ TStar :: pp 7 c2).
         assert (Hh : hdb 6 (pp 6 c1 ++ TStar :: pp 7 c2)) by (apply hdb_app; exact Hha').
         assert (Hn : nolook (pp 6 c1 ++ TStar :: pp 7 c2)) by (apply nolook_app; [exact Hna'|intros; exact I]).
-        split; [|split; assumption].
+        split; [|split; [assumption|split; [assumption|intros Hsel; discriminate Hsel]]].
         apply Fall_build; [cbn [lvl]; lia|exact Hh|exact Hn|..]; cbn [lvl]; wrong_levels; intros _.
         intros rest r Hf Hl. rewrite <- app_assoc. cbn [app erase].
         apply (Fall_F6 _ _ _ Fa' (le_n 6)); [simpl; lia|].
@@ -852,7 +1458,7 @@ Proof.
       { unfold Good. change (body (EArith Div c1 c2)) with (pp 6 c1 ++ TSlash :: pp 7 c2).
         assert (Hh : hdb 6 (pp 6 c1 ++ TSlash :: pp 7 c2)) by (apply hdb_app; exact Hha').
         assert (Hn : nolook (pp 6 c1 ++ TSlash :: pp 7 c2)) by (apply nolook_app; [exact Hna'|intros; exact I]).
-        split; [|split; assumption].
+        split; [|split; [assumption|split; [assumption|intros Hsel; discriminate Hsel]]].
         apply Fall_build; [cbn [lvl]; lia|exact Hh|exact Hn|..]; cbn [lvl]; wrong_levels; intros _.
         intros rest r Hf Hl. rewrite <- app_assoc. cbn [app erase].
         apply (Fall_F6 _ _ _ Fa' (le_n 6)); [simpl; lia|].
@@ -861,23 +1467,23 @@ Proof.
       { unfold Good. change (body (EArith Mod c1 c2)) with (pp 6 c1 ++ TPercent :: pp 7 c2).
         assert (Hh : hdb 6 (pp 6 c1 ++ TPercent :: pp 7 c2)) by (apply hdb_app; exact Hha').
         assert (Hn : nolook (pp 6 c1 ++ TPercent :: pp 7 c2)) by (apply nolook_app; [exact Hna'|intros; exact I]).
-        split; [|split; assumption].
+        split; [|split; [assumption|split; [assumption|intros Hsel; discriminate Hsel]]].
         apply Fall_build; [cbn [lvl]; lia|exact Hh|exact Hn|..]; cbn [lvl]; wrong_levels; intros _.
         intros rest r Hf Hl. rewrite <- app_assoc. cbn [app erase].
         apply (Fall_F6 _ _ _ Fa' (le_n 6)); [simpl; lia|].
         ok_start. rewrite term_loop_S. cbv iota.
         rewrite (Fall_F7 _ _ _ Fb' (le_n 7) rest Hf); [apply Hl; len|len]. }
   - (* ECmp *)
-    apply andb_prop in Hwf. destruct Hwf as [Hw1 Hw2]. apply andb_prop in Hns. destruct Hns as [Hn1 Hn2].
-    assert (G1 : Good c1) by (apply IH; [lia|assumption|assumption]).
-    assert (G2 : Good c2) by (apply IH; [lia|assumption|assumption]).
-    destruct (pp_Fall 5 c1 ltac:(lia) (nosel_lvl c1 Hn1) G1) as (Fa & Hha & Hna).
-    destruct (pp_Fall 5 c2 ltac:(lia) (nosel_lvl c2 Hn2) G2) as (Fb & _ & _).
+    apply andb_prop in Hwf. destruct Hwf as [Hw1 Hw2].
+    assert (G1 : Good c1) by (apply IH; [lia|assumption]).
+    assert (G2 : Good c2) by (apply IH; [lia|assumption]).
+    destruct (pp_Fall 5 c1 ltac:(lia) G1) as (Fa & Hha & Hna).
+    destruct (pp_Fall 5 c2 ltac:(lia) G2) as (Fb & _ & _).
     unfold Good. change (body (ECmp op c1 c2)) with (pp 5 c1 ++ cmp_toks op ++ pp 5 c2).
     assert (Hh : hdb 4 (pp 5 c1 ++ cmp_toks op ++ pp 5 c2)) by (apply hdb_app; eapply hdb_mono; [exact Hha|lia]).
     assert (Hn : nolook (pp 5 c1 ++ cmp_toks op ++ pp 5 c2)).
     { apply nolook_app; [exact Hna|]. intros; destruct op; exact I. }
-    split; [|split; assumption].
+    split; [|split; [assumption|split; [assumption|intros Hsel; discriminate Hsel]]].
     apply Fall_build; [cbn [lvl]; lia|exact Hh|exact Hn|..]; cbn [lvl]; wrong_levels; intros _.
     intros rest Hf. ok_start. rewrite p_comparison_S. rewrite <- !app_assoc in *. cbn [erase].
     rewrite (Fall_F5 _ _ _ Fa (le_n 5) (cmp_toks op ++ pp 5 c2 ++ rest) (erase c1, cmp_toks op ++ pp 5 c2 ++ rest));
@@ -887,42 +1493,41 @@ Proof.
     + eapply follow'_mono; [exact Hf|lia].
     + apply sum_loop_stop, follow'_follow. eapply follow'_mono; [exact Hf|lia].
   - (* EIsNull *)
-    assert (G1 : Good c) by (apply IH; [lia|assumption|assumption]).
-    destruct (pp_Fall 5 c ltac:(lia) (nosel_lvl c Hns) G1) as (Fa & Hha & Hna).
+    assert (G1 : Good c) by (apply IH; [lia|assumption]).
+    destruct (pp_Fall 5 c ltac:(lia) G1) as (Fa & Hha & Hna).
     unfold Good. change (body (EIsNull c)) with (pp 5 c ++ [TKw KIS; TId w_null]).
     assert (Hh : hdb 4 (pp 5 c ++ [TKw KIS; TId w_null])) by (apply hdb_app; eapply hdb_mono; [exact Hha|lia]).
     assert (Hn : nolook (pp 5 c ++ [TKw KIS; TId w_null])) by (apply nolook_app; [exact Hna|intros; exact I]).
-    split; [|split; assumption].
+    split; [|split; [assumption|split; [assumption|intros Hsel; discriminate Hsel]]].
     apply Fall_build; [cbn [lvl]; lia|exact Hh|exact Hn|..]; cbn [lvl]; wrong_levels; intros _.
     intros rest Hf. ok_start. rewrite p_comparison_S. rewrite <- !app_assoc in *. cbn [erase app] in *.
     rewrite (Fall_F5 _ _ _ Fa (le_n 5) (TKw KIS :: TId w_null :: rest) (erase c, TKw KIS :: TId w_null :: rest));
       [reflexivity | simpl; lia | apply sum_loop_stop; simpl; lia | len].
   - (* EIsNotNull *)
-    assert (G1 : Good c) by (apply IH; [lia|assumption|assumption]).
-    destruct (pp_Fall 5 c ltac:(lia) (nosel_lvl c Hns) G1) as (Fa & Hha & Hna).
+    assert (G1 : Good c) by (apply IH; [lia|assumption]).
+    destruct (pp_Fall 5 c ltac:(lia) G1) as (Fa & Hha & Hna).
     unfold Good. change (body (EIsNotNull c)) with (pp 5 c ++ [TKw KIS; TKw KNOT; TId w_null]).
     assert (Hh : hdb 4 (pp 5 c ++ [TKw KIS; TKw KNOT; TId w_null])) by (apply hdb_app; eapply hdb_mono; [exact Hha|lia]).
     assert (Hn : nolook (pp 5 c ++ [TKw KIS; TKw KNOT; TId w_null])) by (apply nolook_app; [exact Hna|intros; exact I]).
-    split; [|split; assumption].
+    split; [|split; [assumption|split; [assumption|intros Hsel; discriminate Hsel]]].
     apply Fall_build; [cbn [lvl]; lia|exact Hh|exact Hn|..]; cbn [lvl]; wrong_levels; intros _.
     intros rest Hf. ok_start. rewrite p_comparison_S. rewrite <- !app_assoc in *. cbn [erase app] in *.
     rewrite (Fall_F5 _ _ _ Fa (le_n 5) (TKw KIS :: TKw KNOT :: TId w_null :: rest) (erase c, TKw KIS :: TKw KNOT :: TId w_null :: rest));
       [reflexivity | simpl; lia | apply sum_loop_stop; simpl; lia | len].
   - (* EBetween *)
     apply andb_prop in Hwf. destruct Hwf as [Hwf Hw3]. apply andb_prop in Hwf. destruct Hwf as [Hw1 Hw2].
-    apply andb_prop in Hns. destruct Hns as [Hns Hn3]. apply andb_prop in Hns. destruct Hns as [Hn1 Hn2].
-    assert (G1 : Good c1) by (apply IH; [lia|assumption|assumption]).
-    assert (G2 : Good c2) by (apply IH; [lia|assumption|assumption]).
-    assert (G3 : Good c3) by (apply IH; [lia|assumption|assumption]).
-    destruct (pp_Fall 5 c1 ltac:(lia) (nosel_lvl c1 Hn1) G1) as (Fa & Hha & Hna).
-    destruct (pp_Fall 5 c2 ltac:(lia) (nosel_lvl c2 Hn2) G2) as (Fb & _ & _).
-    destruct (pp_Fall 5 c3 ltac:(lia) (nosel_lvl c3 Hn3) G3) as (Fc & _ & _).
+    assert (G1 : Good c1) by (apply IH; [lia|assumption]).
+    assert (G2 : Good c2) by (apply IH; [lia|assumption]).
+    assert (G3 : Good c3) by (apply IH; [lia|assumption]).
+    destruct (pp_Fall 5 c1 ltac:(lia) G1) as (Fa & Hha & Hna).
+    destruct (pp_Fall 5 c2 ltac:(lia) G2) as (Fb & _ & _).
+    destruct (pp_Fall 5 c3 ltac:(lia) G3) as (Fc & _ & _).
     unfold Good. change (body (EBetween c1 c2 c3)) with (pp 5 c1 ++ TId w_between :: pp 5 c2 ++ TKw KAND :: pp 5 c3).
     assert (Hh : hdb 4 (pp 5 c1 ++ TId w_between :: pp 5 c2 ++ TKw KAND :: pp 5 c3))
       by (apply hdb_app; eapply hdb_mono; [exact Hha|lia]).
     assert (Hn : nolook (pp 5 c1 ++ TId w_between :: pp 5 c2 ++ TKw KAND :: pp 5 c3))
       by (apply nolook_app; [exact Hna|intros; exact I]).
-    split; [|split; assumption].
+    split; [|split; [assumption|split; [assumption|intros Hsel; discriminate Hsel]]].
     apply Fall_build; [cbn [lvl]; lia|exact Hh|exact Hn|..]; cbn [lvl]; wrong_levels; intros _.
     intros rest Hf. ok_start. rewrite p_comparison_S. rewrite <- !app_assoc in *. cbn [erase app] in *.
     rewrite <- !app_assoc in *. cbn [app] in *.
@@ -937,31 +1542,28 @@ Proof.
     + eapply follow'_mono; [exact Hf|lia].
     + apply sum_loop_stop, follow'_follow. eapply follow'_mono; [exact Hf|lia].
   - (* ENot *)
-    assert (G1 : Good c) by (apply IH; [lia|assumption|assumption]).
-    destruct (pp_Fall 3 c ltac:(lia) (nosel_lvl c Hns) G1) as (Fa & _ & _).
+    assert (G1 : Good c) by (apply IH; [lia|assumption]).
+    destruct (pp_Fall 3 c ltac:(lia) G1) as (Fa & _ & _).
     unfold Good. change (body (ENot c)) with (TKw KNOT :: pp 3 c).
-    assert (Hh : hdb 3 (TKw KNOT :: pp 3 c)) by (simpl; split; intros; lia).
+    assert (Hh : hdb 3 (TKw KNOT :: pp 3 c)) by hdb_tac.
     assert (Hn : nolook (TKw KNOT :: pp 3 c)).
     { intros rest _. cbn [app]. destruct (pp 3 c ++ rest) as [|t r]; [reflexivity|]. destruct t; reflexivity. }
-    split; [|split; assumption].
+    split; [|split; [assumption|split; [assumption|intros Hsel; discriminate Hsel]]].
     apply Fall_build; [cbn [lvl]; lia|exact Hh|exact Hn|..]; cbn [lvl]; wrong_levels; intros _.
     intros rest Hf. ok_start. cbn [app erase] in *. rewrite p_inversion_S. cbv iota.
     rewrite (Fall_F3 _ _ _ Fa (le_n 3) rest Hf) by len. reflexivity.
   - (* EAnd *)
     destruct args as [|a1 l]; [discriminate|].
-    apply andb_prop in Hwf. destruct Hwf as [Hlen Hwf]. cbn [forallb] in Hwf, Hns.
-    apply andb_prop in Hwf. destruct Hwf as [Hw1 Hwl]. apply andb_prop in Hns. destruct Hns as [Hn1 Hnl].
+    apply andb_prop in Hwf. destruct Hwf as [Hlen Hwf]. cbn [forallb] in Hwf.
+    apply andb_prop in Hwf. destruct Hwf as [Hw1 Hwl].
     assert (Hne : l <> []) by (destruct l; [discriminate|discriminate]).
     cbn [lsize fold_right] in Hs. fold (lsize esize l) in Hs.
-    assert (G1 : Good a1) by (apply IH; [lia|assumption|assumption]).
-    destruct (pp_Fall 3 a1 ltac:(lia) (nosel_lvl a1 Hn1) G1) as (Fa & Hha & Hna).
+    assert (G1 : Good a1) by (apply IH; [lia|assumption]).
+    destruct (pp_Fall 3 a1 ltac:(lia) G1) as (Fa & Hha & Hna).
     assert (HF : forall x, List.In x l -> F3 (pp 3 x) (erase x)).
     { intros x Hx. assert (Gx : Good x).
-      { apply IH; [pose proof (In_lsize esize x l Hx); lia| |].
-        - rewrite forallb_forall in Hwl. apply Hwl, Hx.
-        - rewrite forallb_forall in Hnl. apply Hnl, Hx. }
-      assert (Lx : 1 <= lvl x) by (apply nosel_lvl; rewrite forallb_forall in Hnl; apply Hnl, Hx).
-      destruct (pp_Fall 3 x ltac:(lia) Lx Gx) as (Fx & _ & _). apply (Fall_F3 _ _ _ Fx). lia. }
+      { apply IH; [pose proof (In_lsize esize x l Hx); lia|]. rewrite forallb_forall in Hwl. apply Hwl, Hx. }
+      destruct (pp_Fall 3 x ltac:(lia) Gx) as (Fx & _ & _). apply (Fall_F3 _ _ _ Fx). lia. }
     unfold Good. change (body (EAnd (a1 :: l))) with (pp 3 a1 ++ concat (map (fun x => TKw KAND :: pp 3 x) l)).
     set (tail := concat (map (fun x => TKw KAND :: pp 3 x) l)) in *.
     assert (Ht : forall rest, exists r, tail ++ rest = TKw KAND :: r).
@@ -969,7 +1571,7 @@ Proof.
     assert (Hh : hdb 2 (pp 3 a1 ++ tail)) by (apply hdb_app; eapply hdb_mono; [exact Hha|lia]).
     assert (Hn : nolook (pp 3 a1 ++ tail)).
     { apply nolook_app; [exact Hna|]. intros rest. destruct (Ht rest) as [r ->]. exact I. }
-    split; [|split; assumption].
+    split; [|split; [assumption|split; [assumption|intros Hsel; discriminate Hsel]]].
     apply Fall_build; [cbn [lvl]; lia|exact Hh|exact Hn|..]; cbn [lvl]; wrong_levels; intros _.
     intros rest Hf. ok_start. rewrite p_conjunction_S. rewrite <- !app_assoc in *.
     rewrite (Fall_F3 _ _ _ Fa (le_n 3) (tail ++ rest)); [| destruct (Ht rest) as [r ->]; simpl; lia | len].
@@ -977,19 +1579,16 @@ Proof.
     rewrite mk_bool_rev; [reflexivity|]. destruct l; [congruence|discriminate].
   - (* EOr *)
     destruct args as [|a1 l]; [discriminate|].
-    apply andb_prop in Hwf. destruct Hwf as [Hlen Hwf]. cbn [forallb] in Hwf, Hns.
-    apply andb_prop in Hwf. destruct Hwf as [Hw1 Hwl]. apply andb_prop in Hns. destruct Hns as [Hn1 Hnl].
+    apply andb_prop in Hwf. destruct Hwf as [Hlen Hwf]. cbn [forallb] in Hwf.
+    apply andb_prop in Hwf. destruct Hwf as [Hw1 Hwl].
     assert (Hne : l <> []) by (destruct l; [discriminate|discriminate]).
     cbn [lsize fold_right] in Hs. fold (lsize esize l) in Hs.
-    assert (G1 : Good a1) by (apply IH; [lia|assumption|assumption]).
-    destruct (pp_Fall 2 a1 ltac:(lia) (nosel_lvl a1 Hn1) G1) as (Fa & Hha & Hna).
+    assert (G1 : Good a1) by (apply IH; [lia|assumption]).
+    destruct (pp_Fall 2 a1 ltac:(lia) G1) as (Fa & Hha & Hna).
     assert (HF : forall x, List.In x l -> F2 (pp 2 x) (erase x)).
     { intros x Hx. assert (Gx : Good x).
-      { apply IH; [pose proof (In_lsize esize x l Hx); lia| |].
-        - rewrite forallb_forall in Hwl. apply Hwl, Hx.
-        - rewrite forallb_forall in Hnl. apply Hnl, Hx. }
-      assert (Lx : 1 <= lvl x) by (apply nosel_lvl; rewrite forallb_forall in Hnl; apply Hnl, Hx).
-      destruct (pp_Fall 2 x ltac:(lia) Lx Gx) as (Fx & _ & _). apply (Fall_F2 _ _ _ Fx). lia. }
+      { apply IH; [pose proof (In_lsize esize x l Hx); lia|]. rewrite forallb_forall in Hwl. apply Hwl, Hx. }
+      destruct (pp_Fall 2 x ltac:(lia) Gx) as (Fx & _ & _). apply (Fall_F2 _ _ _ Fx). lia. }
     unfold Good. change (body (EOr (a1 :: l))) with (pp 2 a1 ++ concat (map (fun x => TKw KOR :: pp 2 x) l)).
     set (tail := concat (map (fun x => TKw KOR :: pp 2 x) l)) in *.
     assert (Ht : forall rest, exists r, tail ++ rest = TKw KOR :: r).
@@ -997,30 +1596,32 @@ Proof.
     assert (Hh : hdb 1 (pp 2 a1 ++ tail)) by (apply hdb_app; eapply hdb_mono; [exact Hha|lia]).
     assert (Hn : nolook (pp 2 a1 ++ tail)).
     { apply nolook_app; [exact Hna|]. intros rest. destruct (Ht rest) as [r ->]. exact I. }
-    split; [|split; assumption].
+    split; [|split; [assumption|split; [assumption|intros Hsel; discriminate Hsel]]].
     apply Fall_build; [cbn [lvl]; lia|exact Hh|exact Hn|..]; cbn [lvl]; wrong_levels; intros _.
     intros rest Hf. apply L_D_E. ok_start. rewrite p_disjunction_S. rewrite <- !app_assoc in *.
     rewrite (Fall_F2 _ _ _ Fa (le_n 2) (tail ++ rest)); [| destruct (Ht rest) as [r ->]; simpl; lia | len].
     unfold tail. rewrite (or_tail l (erase a1) [] rest HF Hf) by (fold tail; len).
     rewrite mk_bool_rev; [reflexivity|]. destruct l; [congruence|discriminate].
+  - (* ESelect *)
+    apply (main_select n); [exact Hs|exact Hwf|]. intros x Hx. apply IH. exact Hx.
   - (* EParen *)
-    assert (G1 : Good c) by (apply IH; [lia|assumption|assumption]).
-    destruct (pp_Fall 1 c ltac:(lia) (nosel_lvl c Hns) G1) as (Fa & _ & _).
+    assert (G1 : Good c) by (apply IH; [lia|assumption]).
+    destruct (pp_Fall 1 c ltac:(lia) G1) as (Fa & _ & _).
     unfold Good. change (body (EParen c)) with (paren (pp 1 c)).
-    assert (Hh : hdb 7 (paren (pp 1 c))) by (simpl; split; intros; [discriminate|lia]).
-    split; [|split; [exact Hh|apply nolook_paren]].
+    assert (Hh : hdb 7 (paren (pp 1 c))) by hdb_tac.
+    split; [|split; [exact Hh|split; [apply nolook_paren|intros Hsel; discriminate Hsel]]].
     apply Fall_build; [cbn [lvl]; lia|exact Hh|apply nolook_paren|..]; cbn [lvl]; wrong_levels; intros _.
     intros rest Hf. rewrite paren_app. cbn [erase]. apply (Fall_FP _ _ _ Fa).
   - (* EUPlus *)
     apply andb_prop in Hwf. destruct Hwf as [Hwf Hw1]. apply andb_prop in Hwf. destruct Hwf as [Hl _].
     apply Nat.leb_le in Hl.
-    assert (G1 : Good c) by (apply IH; [lia|assumption|assumption]).
-    destruct G1 as (Fa & _ & _).
+    assert (G1 : Good c) by (apply IH; [lia|assumption]).
+    destruct G1 as (Fa & _ & _ & _).
     unfold Good. change (body (EUPlus c)) with (TPlus :: body c).
-    assert (Hh : hdb 7 (TPlus :: body c)) by (simpl; split; intros; [discriminate|lia]).
+    assert (Hh : hdb 7 (TPlus :: body c)) by hdb_tac.
     assert (Hn : nolook (TPlus :: body c)).
     { intros rest _. cbn [app]. destruct (body c ++ rest) as [|t r]; [reflexivity|]. destruct t; reflexivity. }
-    split; [|split; assumption].
+    split; [|split; [assumption|split; [assumption|intros Hsel; discriminate Hsel]]].
     apply Fall_build; [cbn [lvl]; lia|exact Hh|exact Hn|..]; cbn [lvl]; wrong_levels; intros _.
     intros rest Hf. ok_start. cbn [app erase] in *. rewrite p_factor_S.
     destruct m; [exfalso; len|]. rewrite p_unary_S. cbv iota.
@@ -1030,11 +1631,10 @@ Qed.
 (* ---------------------------------------------------------------------- *)
 (* round trip of expressions (token level) *)
 
-Theorem expr_roundtrip_nosel : forall c, wf c = true -> nosel c = true ->
-  parse_expr (body c) = Some (erase c).
+Theorem expr_roundtrip : forall c, wf c = true -> parse_expr (pp 1 c) = Some (erase c).
 Proof.
-  intros c Hwf Hns. destruct (main (esize c) c (le_n _) Hwf Hns) as (HF & _ & _).
-  pose proof (Fall_F1 _ _ _ HF (nosel_lvl c Hns) [] I) as H.
+  intros c Hwf. destruct (pp_Fall 1 c ltac:(lia) (main (esize c) c (le_n _) Hwf)) as (HF & _ & _).
+  pose proof (Fall_F1 _ _ _ HF (le_n 1) [] I) as H.
   unfold parse_expr, fuel_for. rewrite app_nil_r in H. rewrite H; [reflexivity|lia].
 Qed.
 
@@ -1044,35 +1644,151 @@ Proof.
   rewrite (H y (or_introl eq_refl)), IH; [reflexivity|]. intros; apply H; right; assumption.
 Qed.
 
-Lemma pure_erase_nosel : forall n e, esize e <= n -> pure e = true -> nosel e = true -> erase e = e.
+Lemma pure_erase : forall n e, esize e <= n -> pure e = true -> erase e = e.
 Proof.
-  induction n as [|n IH]; intros e Hs Hp Hn.
+  induction n as [|n IH]; intros e Hs Hp.
   { destruct e; simpl in Hs; lia. }
-  destruct e; cbn [pure nosel esize erase] in *; try discriminate; try reflexivity;
+  destruct e; cbn [pure esize erase] in *; try discriminate; try reflexivity;
     repeat match goal with
            | H : _ && _ = true |- _ => apply andb_prop in H; destruct H
            end;
     try (rewrite ?IH by (assumption || lia); reflexivity).
-  - f_equal. apply map_id_in. intros x Hx. rewrite forallb_forall in Hp, Hn.
-    apply IH; [pose proof (In_lsize esize x args Hx); lia|apply Hp, Hx|apply Hn, Hx].
-  - f_equal. apply map_id_in. intros x Hx. rewrite forallb_forall in Hp, Hn.
-    apply IH; [pose proof (In_lsize esize x args Hx); lia|apply Hp, Hx|apply Hn, Hx].
-  - f_equal. apply map_id_in. intros x Hx. rewrite forallb_forall in Hp, Hn.
-    apply IH; [pose proof (In_lsize esize x args Hx); lia|apply Hp, Hx|apply Hn, Hx].
+  - f_equal. apply map_id_in. intros x Hx. rewrite forallb_forall in Hp.
+    apply IH; [pose proof (In_lsize esize x args Hx); lia|apply Hp, Hx].
+  - f_equal. apply map_id_in. intros x Hx. rewrite forallb_forall in Hp.
+    apply IH; [pose proof (In_lsize esize x args Hx); lia|apply Hp, Hx].
+  - f_equal. apply map_id_in. intros x Hx. rewrite forallb_forall in Hp.
+    apply IH; [pose proof (In_lsize esize x args Hx); lia|apply Hp, Hx].
+  - (* ESelect *)
+    rename H into Ht, H3 into Hf, H2 into Hw, H1 into Hg, H0 into Ho.
+    f_equal.
+    + destruct targets as [tl|]; [|reflexivity]. cbn [omap oall osize] in *. f_equal. apply map_id_in.
+      intros [x nm] Hx. cbn [fst snd]. f_equal. rewrite forallb_forall in Ht.
+      apply IH; [|apply (Ht (x, nm) Hx)].
+      pose proof (In_lsize (fun p : expr * option str => esize (fst p)) (x, nm) tl Hx) as H. cbn [fst] in H. lia.
+    + destruct from as [[nm|s|x op c cl]|]; try reflexivity; cbn [omap oall osize from_map from_size] in *.
+      * do 2 f_equal. apply IH; [lia|exact Hf].
+      * do 2 f_equal. destruct x as [x|]; [|reflexivity]. cbn [omap oall osize] in *. f_equal. apply IH; [lia|exact Hf].
+    + destruct where_ as [x|]; [|reflexivity]. cbn [omap oall osize] in *. f_equal. apply IH; [lia|exact Hw].
+    + destruct group as [[gl h]|]; [|reflexivity]. cbn [omap oall osize fst snd] in *.
+      apply andb_prop in Hg. destruct Hg as [Hgl Hh]. do 2 f_equal.
+      * apply map_id_in. intros [k|x] Hx; [reflexivity|]. cbn [smap]. f_equal. rewrite forallb_forall in Hgl.
+        apply IH; [|apply (Hgl (inr x) Hx)].
+        pose proof (In_lsize (ssize esize) (inr x) gl Hx) as H. cbn [ssize] in H. lia.
+      * destruct h as [x|]; [|reflexivity]. cbn [omap oall osize] in *. f_equal. apply IH; [lia|exact Hh].
+    + apply map_id_in. intros [[k|x] dsc] Hx; [reflexivity|]. cbn [fst snd smap]. do 2 f_equal.
+      rewrite forallb_forall in Ho. apply IH; [|apply (Ho (inr x, dsc) Hx)].
+      pose proof (In_lsize (fun p : (N + expr) * bool => ssize esize (fst p)) (inr x, dsc) order Hx) as H.
+      cbn [ssize fst] in H. lia.
 Qed.
 
-Theorem expr_roundtrip_pure_nosel : forall e, wf e = true -> nosel e = true -> pure e = true ->
-  parse_expr (body e) = Some e.
+Theorem expr_roundtrip_pure : forall e, wf e = true -> pure e = true -> parse_expr (pp 1 e) = Some e.
 Proof.
-  intros e Hwf Hns Hp. rewrite expr_roundtrip_nosel by assumption.
-  rewrite (pure_erase_nosel (esize e) e (le_n _) Hp Hns). reflexivity.
+  intros e Hwf Hp. rewrite expr_roundtrip by assumption.
+  rewrite (pure_erase (esize e) e (le_n _) Hp). reflexivity.
 Qed.
 
 (* two distinct trees never print alike (up to redundant syntax) *)
-Theorem print_injective_nosel : forall c1 c2, wf c1 = true -> wf c2 = true ->
-  nosel c1 = true -> nosel c2 = true -> body c1 = body c2 -> erase c1 = erase c2.
+Theorem print_injective : forall c1 c2, wf c1 = true -> wf c2 = true ->
+  pp 1 c1 = pp 1 c2 -> erase c1 = erase c2.
 Proof.
-  intros c1 c2 W1 W2 N1 N2 E.
-  pose proof (expr_roundtrip_nosel c1 W1 N1) as H1. rewrite E, (expr_roundtrip_nosel c2 W2 N2) in H1.
-  congruence.
+  intros c1 c2 W1 W2 E.
+  pose proof (expr_roundtrip c1 W1) as H1. rewrite E, (expr_roundtrip c2 W2) in H1. congruence.
+Qed.
+
+(* ---------------------------------------------------------------------- *)
+(* statements *)
+
+Definition at_toks (sf : option str) : list token := match sf with Some n => [TId w_at; TId n] | None => [] end.
+Definition from_part (f : option (fromc expr)) : list token :=
+  match f with Some fc => TKw KFROM :: from_toks fc | None => [] end.
+
+Lemma wf_from_only_G fc : wf_from_only fc = true ->
+  exists x o c cl, fc = FFrom x o c cl /\ G1o x /\ ffrom_nonempty x o c cl.
+Proof.
+  destruct fc as [n|s|x o c cl]; try discriminate. cbn [wf_from_only wf_from]. intros H.
+  apply andb_prop in H. destruct H as [Hx Hne]. exists x, o, c, cl. split; [reflexivity|]. split.
+  - destruct x as [x|]; [|exact I]. apply Good_G1, (main (esize x) x (le_n _) Hx).
+  - destruct x, o, c, cl; try exact I. discriminate Hne.
+Qed.
+
+Lemma from_opt_ok m f rest : oall wf_from_only f = true -> 2 <= crank rest ->
+  40 * length (from_part f ++ rest) + 14 <= m ->
+  p_from_opt m (from_part f ++ rest) = Some (omap from_erase f, rest).
+Proof.
+  intros Hwf Hr Hm. destruct f as [fc|]; cbn [from_part app oall omap] in *.
+  - destruct (wf_from_only_G fc Hwf) as (x & o & c & cl & -> & HG & Hne).
+    unfold p_from_opt. change (from_toks (FFrom x o c cl)) with (ffrom_toks x o c cl) in *.
+    destruct (ffrom_ok m x o c cl rest HG Hne Hr) as (_ & E); [len|]. rewrite E. reflexivity.
+  - unfold p_from_opt. destruct rest as [|t r]; [reflexivity|]. destruct t; try reflexivity.
+    destruct k; try reflexivity. simpl in Hr. lia.
+Qed.
+
+Lemma at_ok sf R : match R with TId _ :: _ | TStr _ _ :: _ => False | _ => True end ->
+  p_at_opt (at_toks sf ++ R) = (sf, R).
+Proof.
+  intros HR. destruct sf as [n|]; [reflexivity|]. cbn [at_toks app].
+  destruct R as [|t r]; [reflexivity|]. destruct t; try reflexivity. contradiction.
+Qed.
+Lemma from_part_hd f R : match R with TId _ :: _ | TStr _ _ :: _ => False | _ => True end ->
+  match from_part f ++ R with TId _ :: _ | TStr _ _ :: _ => False | _ => True end.
+Proof. destruct f; [intros _; exact I|intros H; exact H]. Qed.
+
+Theorem stmt_roundtrip : forall s, wf_stmt s = true -> parse_tokens (print_stmt s) = Some (stmt_erase s).
+Proof.
+  intros s Hwf. unfold parse_tokens. set (fuel := fuel_for (print_stmt s)). destruct s; cbn [wf_stmt] in Hwf.
+  - (* SELECT *)
+    apply andb_prop in Hwf. destruct Hwf as [Hsel Hw].
+    destruct (main (esize s) s (le_n _) Hw) as (_ & _ & _ & HS).
+    pose proof (HS Hsel [] I) as H. rewrite app_nil_r in H.
+    cbn [print_stmt stmt_erase] in *. unfold p_statement.
+    assert (E : p_select fuel (body s) = Some (erase s, [])) by (apply H; unfold fuel, fuel_for; lia).
+    destruct s; try discriminate Hsel. rewrite body_select in *. cbv iota. rewrite E. reflexivity.
+  - (* BALANCES *)
+    apply andb_prop in Hwf. destruct Hwf as [Hf Hw].
+    change (print_stmt (SBalances summary from where_))
+      with (TKw KBALANCES :: at_toks summary ++ from_part from ++ where_toks where_) in *.
+    unfold p_statement. cbv iota.
+    rewrite at_ok by (apply from_part_hd; destruct where_; exact I).
+    assert (Hm : 40 * length (at_toks summary ++ from_part from ++ where_toks where_) + 40 <= fuel).
+    { unfold fuel, fuel_for. len. }
+    rewrite <- (app_nil_r (where_toks where_)) at 1.
+    rewrite from_opt_ok; [|exact Hf|destruct where_; simpl; lia|len].
+    cbn [stmt_erase]. destruct where_ as [x|]; cbn [where_toks app omap oall] in *.
+    + destruct (pp_Fall 1 x ltac:(lia) (main (esize x) x (le_n _) Hw)) as (HF & _ & _).
+      pose proof (Fall_F1 _ _ _ HF (le_n 1) [] I fuel) as H. rewrite H; [reflexivity|len].
+    + reflexivity.
+  - (* JOURNAL *)
+    change (print_stmt (SJournal account summary from))
+      with (TKw KJOURNAL :: match account with Some a => [str_tok a] | None => [] end
+                         ++ at_toks summary ++ from_part from) in *.
+    unfold p_statement. cbv iota.
+    assert (Hm : 40 * length (match account with Some a => [str_tok a] | None => [] end
+                              ++ at_toks summary ++ from_part from) + 40 <= fuel).
+    { unfold fuel, fuel_for. len. }
+    assert (EA : match (match account with Some a => [str_tok a] | None => [] end
+                              ++ at_toks summary ++ from_part from) with
+                 | TStr _ s0 :: r' => (Some s0, r')
+                 | _ => (None, match account with Some a => [str_tok a] | None => [] end
+                              ++ at_toks summary ++ from_part from)
+                 end = (account, at_toks summary ++ from_part from)).
+    { destruct account as [a|]; [reflexivity|]. cbn [app]. destruct summary as [n|]; [reflexivity|].
+      cbn [at_toks app]. destruct from; reflexivity. }
+    rewrite EA. rewrite <- (app_nil_r (from_part from)) at 1.
+    rewrite at_ok by (apply from_part_hd; exact I).
+    rewrite from_opt_ok; [reflexivity|exact Hwf|simpl; lia|destruct account; len].
+  - (* PRINT *)
+    change (print_stmt (SPrint from)) with (TKw KPRINT :: from_part from) in *.
+    unfold p_statement. cbv iota. rewrite <- (app_nil_r (from_part from)).
+    rewrite from_opt_ok; [reflexivity|exact Hwf|simpl; lia|unfold fuel, fuel_for; len].
+Qed.
+
+Theorem stmt_roundtrip_pure : forall s, wf_stmt s = true -> stmt_erase s = s ->
+  parse_tokens (print_stmt s) = Some s.
+Proof. intros s Hwf He. rewrite stmt_roundtrip by exact Hwf. rewrite He. reflexivity. Qed.
+
+Theorem stmt_print_injective : forall s1 s2, wf_stmt s1 = true -> wf_stmt s2 = true ->
+  print_stmt s1 = print_stmt s2 -> stmt_erase s1 = stmt_erase s2.
+Proof.
+  intros s1 s2 W1 W2 E. pose proof (stmt_roundtrip s1 W1) as H. rewrite E, (stmt_roundtrip s2 W2) in H. congruence.
 Qed.
